@@ -202,6 +202,18 @@ class InjectedValueError(ValueError):
     """a failure of the cache write that is not an OSError (json.dumps refusing a value, MemoryError ...)"""
 
 
+def is_injected(e):
+    """is this exception the injected fault, or was it raised while handling it / caused by it?"""
+    seen = 0
+    x = e
+    while x is not None and seen < 20:
+        if isinstance(x, (InjectedFault, InjectedValueError)):
+            return True
+        x = x.__cause__ or x.__context__
+        seen += 1
+    return False
+
+
 class FaultInjector:
     """raise OSError at the k-th mutating file-system call made by the library (C14).  Installed from
     outside into the namespaces of the file_builder modules; /repo is not changed."""
@@ -364,7 +376,7 @@ def run_case(case, hooks=None, mutate=False):
                         res = {'ok': wire.enc(r)}
                     except Exception as e:
                         res = {'exc': show_exc(e, ctx)}
-                        if isinstance(e, (InjectedFault, InjectedValueError)) or (inj is not None and inj.fired and isinstance(e, OSError)):
+                        if is_injected(e):
                             res['exc']['cls'] = 'OSError'
                 finally:
                     if inj is not None:
